@@ -1,3 +1,190 @@
-/-! C18 model (stub) -/
+/-!
+# C18 model: memory limiter
+
+Mirrors `internal/memorylimiter/memorylimiter.go` (`getMemUsageChecker`, `newFixedMemUsageChecker`,
+`newPercentageMemUsageChecker`, `memUsageChecker.aboveSoftLimit/aboveHardLimit`, `CheckMemLimits`,
+`doGCandReadMemStats`, `Start`, `Shutdown` — with the repair `fix: memory limiter re-arms its ticker when
+started again after a full shutdown`), `config.go Validate`, the processor's `process*` functions under
+`processorhelper.New*` and the extension's `MustRefuse`.
+
+`uint64` values are `Nat`s below `2^64`; every `uint64` operation of the code is written with its
+wrap-around (`u64`, `wsub`, `wmul`), so that "no underflow" is a theorem and not an assumption.
+Times are `Int` nanoseconds (virtual clock), durations may be negative like `time.Duration`.
+-/
 namespace OtelVerif.C18
+
+def W : Nat := 18446744073709551616  -- 2^64
+
+def u64 (n : Nat) : Nat := n % W
+/-- `a - b` on `uint64` -/
+def wsub (a b : Nat) : Nat := (a + W - b % W) % W
+/-- `a * b` on `uint64` -/
+def wmul (a b : Nat) : Nat := (a * b) % W
+
+def mib : Nat := 1048576
+
+/-! ## configuration -/
+
+structure Config where
+  checkInterval : Int
+  gcSoft : Int           -- min_gc_interval_when_soft_limited
+  gcHard : Int           -- min_gc_interval_when_hard_limited
+  limitMiB : Nat         -- uint32
+  spikeMiB : Nat         -- uint32
+  limitPct : Nat         -- uint32
+  spikePct : Nat         -- uint32
+deriving Repr, DecidableEq
+
+/-- `Config.Validate`: 0 = accepted, else the index of the error returned -/
+def validate (c : Config) : Nat :=
+  if c.checkInterval ≤ 0 then 1
+  else if c.gcSoft < c.gcHard then 2
+  else if c.limitMiB = 0 ∧ c.limitPct = 0 then 3
+  else if c.limitPct > 100 ∨ c.spikePct > 100 then 4
+  else if c.limitMiB > 0 ∧ c.limitMiB ≤ c.spikeMiB then 5
+  else if c.limitPct > 0 ∧ c.limitPct ≤ c.spikePct then 6
+  else 0
+
+/-- the `uint32` fields really are below `2^32` -/
+def Config.wf (c : Config) : Prop := c.limitMiB < 4294967296 ∧ c.spikeMiB < 4294967296 ∧ c.limitPct < 4294967296 ∧ c.spikePct < 4294967296
+
+structure Checker where
+  limit : Nat   -- memAllocLimit
+  spike : Nat   -- memSpikeLimit
+deriving Repr, DecidableEq
+
+/-- `newFixedMemUsageChecker` -/
+def newFixed (limit spike : Nat) : Checker :=
+  if spike = 0 then ⟨limit, limit / 5⟩ else ⟨limit, spike⟩
+
+/-- `newPercentageMemUsageChecker` -/
+def newPct (total pl ps : Nat) : Checker :=
+  newFixed (wmul pl total / 100) (wmul ps total / 100)
+
+/-- `getMemUsageChecker` (`total` = what `GetMemoryFn` returns; only read on the percentage path) -/
+def mkChecker (c : Config) (total : Nat) : Checker :=
+  if c.limitMiB ≠ 0 then newFixed (wmul c.limitMiB mib) (wmul c.spikeMiB mib)
+  else newPct total c.limitPct c.spikePct
+
+/-- `ms.Alloc >= d.memAllocLimit - d.memSpikeLimit` with the `uint64` subtraction of the code -/
+def Checker.aboveSoft (k : Checker) (alloc : Nat) : Bool := alloc ≥ wsub k.limit k.spike
+def Checker.aboveHard (k : Checker) (alloc : Nat) : Bool := alloc ≥ k.limit
+
+/-! ## `CheckMemLimits` -/
+
+structure LState where
+  mustRefuse : Bool := false
+  /-- `lastGCDone`, ns on the virtual clock (construction = 0) -/
+  lastGC : Int := 0
+deriving Repr, DecidableEq
+
+/-- the inputs of one check: instant, the reading, what a forced GC would take and leave -/
+structure Reading where
+  now : Int
+  alloc : Nat
+  gcDur : Nat := 0
+  allocAfterGC : Nat
+deriving Repr, DecidableEq
+
+structure CheckOut where
+  st : LState
+  gcRan : Bool
+  /-- the measurement the decision is based on -/
+  latest : Nat
+deriving Repr, DecidableEq
+
+/-- `CheckMemLimits` -/
+def check (k : Checker) (gcSoft gcHard : Int) (s : LState) (r : Reading) : CheckOut :=
+  if !k.aboveSoft r.alloc then
+    { st := { s with mustRefuse := false }, gcRan := false, latest := r.alloc }
+  else
+    let minInt := if k.aboveHard r.alloc then gcHard else gcSoft
+    if r.now - s.lastGC > minInt then
+      -- doGCandReadMemStats: runGC, lastGCDone = time.Now(), re-read
+      { st := { mustRefuse := k.aboveSoft r.allocAfterGC, lastGC := r.now + r.gcDur }, gcRan := true, latest := r.allocAfterGC }
+    else
+      { st := { s with mustRefuse := true }, gcRan := false, latest := r.alloc }
+
+/-- a history of checks; outputs in order -/
+def runChecks (k : Checker) (gcSoft gcHard : Int) : LState → List Reading → List CheckOut
+  | _, [] => []
+  | s, r :: rs => check k gcSoft gcHard s r :: runChecks k gcSoft gcHard (check k gcSoft gcHard s r).st rs
+
+def finalState (k : Checker) (gcSoft gcHard : Int) : LState → List Reading → LState
+  | s, [] => s
+  | s, r :: rs => finalState k gcSoft gcHard (check k gcSoft gcHard s r).st rs
+
+/-! ## search oracle: the property's clauses on ONE observed check, with true integer arithmetic
+(no reference to the control flow of `check`) -/
+
+structure ObsCheck where
+  refuse : Bool
+  gcRan : Bool
+  lastGC : Int
+deriving Repr, DecidableEq
+
+def obsLatest (r : Reading) (o : ObsCheck) : Int := if o.gcRan then r.allocAfterGC else r.alloc
+
+def checkObs (k : Checker) (gcSoft gcHard : Int) (prevLastGC : Int) (r : Reading) (o : ObsCheck) : List String :=
+  let soft : Int := (k.limit : Int) - (k.spike : Int)
+  let sev : Int := if (r.alloc : Int) ≥ k.limit then gcHard else gcSoft
+  (if soft < 0 then ["C18/config/spike-above-limit-accepted"] else []) ++
+  (if o.refuse != decide (obsLatest r o ≥ soft) then ["C18/check/refuse-not-iff-latest-above-soft"] else []) ++
+  (if o.gcRan && !(decide ((r.alloc : Int) ≥ soft) && decide (r.now - prevLastGC > sev)) then ["C18/check/gc-when-not-due"] else []) ++
+  (if !o.gcRan && o.lastGC != prevLastGC then ["C18/check/lastgc-moved-without-gc"] else [])
+
+/-! ## processor / extension -/
+
+inductive Res
+  | ok
+  | refused          -- memorylimiter.ErrDataRefused (errors.New: not permanent)
+  | downstream (code : Nat) (permanent : Bool)
+deriving Repr, DecidableEq
+
+def Res.isPermanent : Res → Bool
+  | .downstream _ p => p
+  | _ => false
+
+/-- `process*` under `processorhelper.New*`: what reaches the next consumer and what the caller gets.
+`next` is the downstream consumer's answer for a payload. -/
+def consume {α : Type} (refusing : Bool) (payload : α) (next : α → Res) : Option α × Res :=
+  if refusing then (none, .refused) else (some payload, next payload)
+
+/-! ## reference-counted start / stop -/
+
+structure RC where
+  ref : Nat := 0
+  /-- the monitoring goroutine exists -/
+  goroutine : Bool := false
+  /-- the ticker is armed (`NewTicker` in the constructor) -/
+  ticker : Bool := true
+deriving Repr, DecidableEq
+
+inductive RCOp | start | shutdown
+deriving Repr, DecidableEq
+
+/-- `Start` / `Shutdown`; the `Bool` is "returned `ErrShutdownNotStarted`" -/
+def RC.step (s : RC) : RCOp → RC × Bool
+  | .start =>
+    if s.ref + 1 = 1 then ({ ref := 1, goroutine := true, ticker := true }, false)   -- ticker.Reset (repair), go func
+    else ({ s with ref := s.ref + 1 }, false)
+  | .shutdown =>
+    match s.ref with
+    | 0 => (s, true)
+    | 1 => ({ ref := 0, goroutine := false, ticker := false }, false)               -- ticker.Stop, close, Wait
+    | n + 2 => ({ s with ref := n + 1 }, false)
+
+/-- the unrepaired `Start`: the ticker stays as `Shutdown` left it -/
+def RC.stepPinned (s : RC) : RCOp → RC × Bool
+  | .start =>
+    if s.ref + 1 = 1 then ({ s with ref := 1, goroutine := true }, false)
+    else ({ s with ref := s.ref + 1 }, false)
+  | .shutdown => s.step .shutdown
+
+def RC.run (s : RC) (ops : List RCOp) : RC := ops.foldl (fun s o => (s.step o).1) s
+def RC.runPinned (s : RC) (ops : List RCOp) : RC := ops.foldl (fun s o => (s.stepPinned o).1) s
+
+/-- memory is being checked periodically -/
+def RC.checking (s : RC) : Bool := s.goroutine && s.ticker
+
 end OtelVerif.C18
